@@ -15,8 +15,8 @@ import contextlib, io, itertools, json, types, uuid as _uuid
 from common import import_qib, run_correspondence, q as ratq
 
 PROP = "C18"
-LEAN_FILES = ["QibProofs/Properties/C18.lean", "QibProofs/Properties/C18Qasm.lean"]
-GEN = ("tables", "wmiconfig", "qasm")
+LEAN_FILES = ["QibProofs/Properties/C18.lean", "QibProofs/Properties/C18Qasm.lean", "QibProofs/Properties/C18Qobj.lean"]
+GEN = ("tables", "wmiconfig", "qasm", "wmiopts")
 DRIVER = "drv_backend"
 LEVEL_TEXT = ("Lean 4 theorems (accepted <=> valid for every configuration and every instruction list; refused before any "
               "request; Qobj identities; hex->binary key conversion) over a hand-written model of _validate/as_qasm/get_counts, "
@@ -915,5 +915,6 @@ def run(rep, tier, rng, drv):
     run_correspondence(rep, drv, cases(), impl, model_req, compare, oracle, "wmi.submit/wmi.validate/wmi.counts/wmi.ctrlname",
                        nontrivial=lambda c, o: bool(c.get("instrs")) or c["op"] in ("wmi.counts", "wmi.ctrlname"))
     # object -> Qobj instruction (`as_qasm()` of every class), own driver
-    from props import c18_qasm
+    from props import c18_qasm, c18_qobj
     c18_qasm.run_stage(rep, tier, rng)
+    c18_qobj.run_stage(rep, tier, rng, drv)      # options -> complete Qobj -> request
